@@ -311,7 +311,9 @@ fn one_record_index<const PADOK: bool>() {
     let c = crc.to_le_bytes();
     let f = [0u8, cnt, u, v, c[0], c[1], c[2], c[3], 0xEE];
     let mut rd = ArrReader::<9>::new(f, 9);
-    let records = vec![Record { unpadded_size: ru, unpacked_size: rv }];
+    // `as _`: the harness must keep compiling if the record fields change width (a narrower type is
+    // exactly the kind of change the assertions below have to catch)
+    let records = vec![Record { unpadded_size: ru as _, unpacked_size: rv as _ }];
     let (ok, count) = {
         let mut ci = util::CountBufRead::new(&mut rd);
         let ind = ci.read_u8();
@@ -543,7 +545,7 @@ fn read_block_unit<const HS: usize, const DEV: usize>() {
         vassert!(ok, "read_block: a well-formed block decodes");
         vassert!(sink.len == 2 && sink.buf[0] == d0 && sink.buf[1] == d1, "read_block: the block's content is written to the output");
         vassert!(records.len() == 1, "read_block: one index record per block");
-        vassert!(records[0].unpadded_size == unpadded as u64 && records[0].unpacked_size == 2, "read_block: record = unpadded block size and uncompressed size");
+        vassert!(records[0].unpadded_size as u64 == unpadded as u64 && records[0].unpacked_size as u64 == 2, "read_block: record = unpadded block size and uncompressed size");
         vassert!(counted == total && rd.pos == total, "read_block: consumes header, payload and padding, nothing more");
     } else {
         vassert!(!ok, "read_block: a wrong header CRC / non-zero padding is rejected");
@@ -737,7 +739,7 @@ fn read_block_fields<const HS: usize, const CHECK: u8, const SYM: u8, const N: u
     vassert!(ok == canon, "read_block: accepted iff header CRC32, declared compressed and uncompressed sizes, zero block padding and the block check all agree with the decoded data");
     if ok {
         vassert!(sink.len == 2 && sink.buf[0] == d0 && sink.buf[1] == d1, "read_block: the block's content is written to the output");
-        vassert!(records.len() == 1 && records[0].unpadded_size == (unpadded_wo_check + check_len) as u64 && records[0].unpacked_size == 2, "read_block: index record = unpadded block size (header + data + check, without padding) and uncompressed size");
+        vassert!(records.len() == 1 && records[0].unpadded_size as u64 == (unpadded_wo_check + check_len) as u64 && records[0].unpacked_size as u64 == 2, "read_block: index record = unpadded block size (header + data + check, without padding) and uncompressed size");
         vassert!(counted == total && rd.pos == total, "read_block: consumes header, payload, padding and check, nothing more");
     } else {
         vassert!(sink.len == 0, "read_block: nothing is written for a rejected block");
@@ -1257,7 +1259,7 @@ where
         Ok(()) => {}
         Err(e) => return Err(error::Error::IoError(e)),
     }
-    records.push(Record { unpadded_size: 8, unpacked_size: 0 });
+    records.push(Record { unpadded_size: 8 as _, unpacked_size: 0 as _ });
     Ok(false)
 }
 
